@@ -53,7 +53,7 @@ func typeParamReflection(p *Prog, r *Reporter) {
 		n := 0
 		for _, site := range callsIn(fn) {
 			sc := site.Common().StaticCallee()
-			if sc == nil || sc.Pkg == nil || sc.Pkg.Pkg.Path() != "reflect" || sc.Name() != "TypeOf" {
+			if sc == nil || sc.Pkg == nil || sc.Pkg.Pkg.Path() != "reflect" || cname(sc) != "TypeOf" {
 				continue
 			}
 			arg := site.Common().Args[0]
@@ -159,7 +159,7 @@ func mapperDelegates(p *Prog, r *Reporter) {
 		// only methods that have a namesake on ecs.Resources
 		has := false
 		for i := 0; i < res.NumMethods(); i++ {
-			if res.Method(i).Name() == fn.Name() {
+			if res.Method(i).Name() == cname(fn) {
 				has = true
 			}
 		}
@@ -168,11 +168,11 @@ func mapperDelegates(p *Prog, r *Reporter) {
 		}
 		calls := false
 		for _, site := range callsIn(fn) {
-			if sc := site.Common().StaticCallee(); sc != nil && sc.Name() == fn.Name() && typeName(recvType(sc)) == "Resources" {
+			if sc := site.Common().StaticCallee(); sc != nil && cname(sc) == cname(fn) && typeName(recvType(sc)) == "Resources" {
 				calls = true
 			}
 		}
-		r.Check(calls, p.FuncName(fn), "delegates to Resources."+fn.Name(), p.FnPos(fn), "the mapper method calls the ID-based method of the same name")
+		r.Check(calls, p.FuncName(fn), "delegates to Resources."+cname(fn), p.FnPos(fn), "the mapper method calls the ID-based method of the same name")
 	}
 }
 
@@ -190,7 +190,7 @@ func batchParallelAppends(p *Prog, r *Reporter) {
 	var par []string
 	for i := 0; i < st.NumFields(); i++ {
 		if _, ok := st.Field(i).Type().Underlying().(*types.Slice); ok {
-			f := st.Field(i).Name()
+			f := fieldName(ba, i)
 			// per-range slices: the ones Add appends to; Added/Removed are per-batch id lists
 			par = append(par, f)
 		}
@@ -252,7 +252,7 @@ func resetMustWrite(p *Prog, r *Reporter) {
 		}
 		stt, _ := n.Underlying().(*types.Struct)
 		for i := 0; i < stt.NumFields(); i++ {
-			f := stt.Field(i).Name()
+			f := fieldName(n, i)
 			key := st.name + "." + f
 			if _, keep := resetKeep[key]; keep {
 				continue
@@ -404,7 +404,7 @@ func cacheNeverRecycles(p *Prog, r *Reporter) {
 		n++
 		bad := ""
 		for _, site := range callsIn(fn) {
-			if sc := site.Common().StaticCallee(); sc != nil && strings.HasPrefix(sc.Name(), "Recycle") && strings.HasPrefix(typeName(recvType(sc)), "intPool") {
+			if sc := site.Common().StaticCallee(); sc != nil && strings.HasPrefix(cname(sc), "Recycle") && strings.HasPrefix(typeName(recvType(sc)), "intPool") {
 				bad = p.Pos(site.Pos())
 			}
 		}
@@ -479,7 +479,7 @@ func selectorNoLen(p *Prog, r *Reporter) {
 				return false
 			}
 			if c := callOf(v); c != nil {
-				if sc := c.Common().StaticCallee(); sc != nil && sc.Name() == "Len" && typeName(recvType(sc)) == "archetype" {
+				if sc := c.Common().StaticCallee(); sc != nil && cname(sc) == "Len" && typeName(recvType(sc)) == "archetype" {
 					return true
 				}
 			}
@@ -539,7 +539,7 @@ func cacheAddDominance(p *Prog, r *Reporter) {
 			return true
 		}
 		if c := callOf(atom); c != nil && !holds {
-			if sc := c.Common().StaticCallee(); sc != nil && sc.Name() == "HasRelation" && strings.HasPrefix(typeName(recvType(sc)), "archetype") {
+			if sc := c.Common().StaticCallee(); sc != nil && cname(sc) == "HasRelation" && strings.HasPrefix(typeName(recvType(sc)), "archetype") {
 				return true
 			}
 		}
@@ -551,7 +551,7 @@ func cacheAddDominance(p *Prog, r *Reporter) {
 	for _, site := range callsIn(fn) {
 		sc := site.Common().StaticCallee()
 		isAdd := func(g *ssa.Function) bool {
-			return g != nil && (g.Name() == "Add" || strings.HasPrefix(g.Name(), "Add[")) && strings.HasPrefix(typeName(recvType(g)), "pointers")
+			return g != nil && (cname(g) == "Add" || strings.HasPrefix(cname(g), "Add[")) && strings.HasPrefix(typeName(recvType(g)), "pointers")
 		}
 		viaHelper := false
 		if sc != nil && !isAdd(sc) && p.isArche(sc) {
@@ -609,7 +609,7 @@ func moversKeepDeadTargets(p *Prog, r *Reporter) {
 		for _, site := range callsIn(fn) {
 			sc := site.Common().StaticCallee()
 			idx, isV := alive[sc]
-			if sc == nil || !isV || sc.Name() == "IsZero" || idx >= len(site.Common().Args) {
+			if sc == nil || !isV || cname(sc) == "IsZero" || idx >= len(site.Common().Args) {
 				continue
 			}
 			arg := site.Common().Args[idx]
@@ -641,7 +641,7 @@ func batchRowFromStart(p *Prog, r *Reporter) {
 		n := 0
 		for _, site := range callsIn(fn) {
 			sc := site.Common().StaticCallee()
-			if sc == nil || sc.Name() != "GetEntity" || len(site.Common().Args) < 2 {
+			if sc == nil || cname(sc) != "GetEntity" || len(site.Common().Args) < 2 {
 				continue
 			}
 			// receiver: an element of batchArchetypes.Archetype
